@@ -238,7 +238,8 @@ Record EM (ord : list nat) (pr : nat -> nat) : Prop := {
   em_zero : forall y, ~ In y ord -> pr y = 0%nat;
   em_le : forall y, (pr y <= length (row m y))%nat;
   em_par : forall y p e, In y ord -> par y = Some (p, e) -> In p ord /\ (index_dst (row m p) y < pr p)%nat;
-  em_child : forall y k e, nth_error (row m y) k = Some e -> (k < pr y)%nat -> b_ring e = false -> In (b_dst e) ord
+  em_child : forall y k e, nth_error (row m y) k = Some e -> (k < pr y)%nat -> b_ring e = false -> In (b_dst e) ord;
+  em_lt : forall y, In y ord -> (y < natoms m)%nat
 }.
 
 (* ring bonds written at exactly one end are the open labels *)
@@ -387,7 +388,8 @@ Proof.
       + rewrite Hprp in Hj. destruct (Nat.eq_dec j k) as [->|Nj].
         * rewrite Ee in Ej. inversion Ej; subst ej. apply in_app_iff. right. now left.
         * apply in_app_iff. left. apply (em_child _ _ Hem p j ej Ej); [fold k; lia|exact Hrj].
-      + rewrite Hpr in Hj by exact N. apply in_app_iff. left. exact (em_child _ _ Hem y j ej Ej Hj Hrj). }
+      + rewrite Hpr in Hj by exact N. apply in_app_iff. left. exact (em_child _ _ Hem y j ej Ej Hj Hrj).
+    - intros y Hy. apply in_app_iff in Hy as [Hy|[<-|[]]]; [exact (em_lt _ _ Hem y Hy)|exact Hcn]. }
   (* no written ring entry has the new atom's parent entry as its partner *)
   assert (Hnop : forall y, In y ord -> (index_dst (row m p) y < pr p)%nat \/ (pr' p <= index_dst (row m p) y)%nat).
   { intros y Hy. fold k. rewrite Hprp. destruct (Nat.lt_ge_cases (index_dst (row m p) y) k) as [L|L]; [now left|right].
@@ -442,11 +444,11 @@ Qed.
 
 (* ---------- step: the first atom of a fragment ---------- *)
 Lemma step_root ord pr log st c :
-  RI ord pr log st -> par c = None -> ~ In c ord -> r_prev st = None -> r_pend st = None ->
+  RI ord pr log st -> par c = None -> ~ In c ord -> (c < natoms m)%nat -> r_prev st = None -> r_pend st = None ->
   exists st', step st (RAtom (aat c)) = Some st' /\ RI (ord ++ [c]) pr log st' /\
     r_prev st' = Some (length ord) /\ r_stack st' = r_stack st /\ r_pend st' = None.
 Proof.
-  intros [Ha Hr Hem Hot Hlg] Hparc Hc Hprev Hpend. set (ord' := ord ++ [c]).
+  intros [Ha Hr Hem Hot Hlg] Hparc Hc Hcn Hprev Hpend. set (ord' := ord ++ [c]).
   assert (Hpos : forall w, In w ord -> pos ord' w = pos ord w) by (intros; now apply pos_app_in).
   unfold step. rewrite Hprev, Hpend. eexists. split; [reflexivity|]. cbn [r_prev r_stack r_pend].
   assert (Hlen : length (r_atoms st) = length ord) by (rewrite Ha; apply map_length).
@@ -458,7 +460,8 @@ Proof.
     - apply (em_le _ _ Hem).
     - intros y q eq Hy Hq. apply in_app_iff in Hy as [Hy|[<-|[]]]; [|congruence].
       destruct (em_par _ _ Hem y q eq Hy Hq) as [A B]. split; [apply in_app_iff; now left|exact B].
-    - intros y j ej Ej Hj Hrj. apply in_app_iff. left. exact (em_child _ _ Hem y j ej Ej Hj Hrj). }
+    - intros y j ej Ej Hj Hrj. apply in_app_iff. left. exact (em_child _ _ Hem y j ej Ej Hj Hrj).
+    - intros y Hy. apply in_app_iff in Hy as [Hy|[<-|[]]]; [exact (em_lt _ _ Hem y Hy)|exact Hcn]. }
   constructor; cbn [r_atoms r_nbrs r_open].
   - rewrite Ha. unfold ord'. now rewrite map_app.
   - unfold ord'. rewrite map_app. cbn [map]. f_equal.
@@ -527,7 +530,8 @@ Proof.
     - intros w j ej Ej Hj Hrj. destruct (Nat.eq_dec w x) as [->|N].
       + rewrite Hprx in Hj. destruct (Nat.eq_dec j k) as [->|Nj]; [rewrite Ee in Ej; inversion Ej; subst ej; congruence|].
         apply (em_child _ _ Hem x j ej Ej); [fold k; lia|exact Hrj].
-      + rewrite Hpr in Hj by exact N. exact (em_child _ _ Hem w j ej Ej Hj Hrj). }
+      + rewrite Hpr in Hj by exact N. exact (em_child _ _ Hem w j ej Ej Hj Hrj).
+    - exact (em_lt _ _ Hem). }
   constructor; cbn [r_atoms r_nbrs r_open].
   - exact Ha.
   - rewrite Hr, (map_upd_pos _ _ ord x (em_nodup _ _ Hem) Hx). apply map_ext_in. intros w Hw.
@@ -660,7 +664,8 @@ Proof.
     - intros w j ej Ej Hj Hrj. destruct (Nat.eq_dec w x) as [->|N].
       + rewrite Hprx in Hj. destruct (Nat.eq_dec j k) as [->|Nj]; [rewrite Ee in Ej; inversion Ej; subst ej; congruence|].
         apply (em_child _ _ Hem x j ej Ej); [fold k; lia|exact Hrj].
-      + rewrite Hpr in Hj by exact N. exact (em_child _ _ Hem w j ej Ej Hj Hrj). }
+      + rewrite Hpr in Hj by exact N. exact (em_child _ _ Hem w j ej Ej Hj Hrj).
+    - exact (em_lt _ _ Hem). }
   constructor; cbn [r_atoms r_nbrs r_open].
   - exact Ha.
   - (* rows: the placeholder at y is filled, x gets its slot *)
@@ -942,7 +947,8 @@ Proof.
       rewrite (F2 w ltac:(apply in_app_iff; now left) Hwc). rewrite Epar. unfold upf. destruct (Nat.eqb_spec w p); subst; reflexivity.
     + intros w [<-|Hw]; [exact F1|now apply F3].
   - destruct Hvia as (Hprev & Hpend).
-    destruct (step_root ord pr log st c HRI Epar Hc Hprev Hpend) as (st1 & Es1 & HR1 & P1 & S1 & Q1).
+    assert (Hcn : (c < natoms m)%nat) by (unfold natoms; apply nth_error_Some; congruence).
+    destruct (step_root ord pr log st c HRI Epar Hc Hcn Hprev Hpend) as (st1 & Es1 & HR1 & P1 & S1 & Q1).
     rewrite Es1.
     assert (Hcin : In c (ord ++ [c])) by (apply in_app_iff; right; now left).
     destruct (G (row m c) c log out log' Eg (ord ++ [c]) pr st1 HR1 Hcin) as (st' & Es' & new & pr' & HR' & S' & Q' & F1 & F2 & F3 & F4).
@@ -954,5 +960,129 @@ Proof.
     + intros w Hw. assert (Hwc : w <> c) by (intro; subst; contradiction).
       rewrite Epar. exact (F2 w ltac:(apply in_app_iff; now left) Hwc).
     + intros w [<-|Hw]; [exact F1|now apply F3].
+Qed.
+
+(* ---------- all fragments ---------- *)
+Definition init_state : rstate := {| r_atoms := []; r_nbrs := []; r_prev := None; r_stack := []; r_pend := None; r_open := [] |}.
+
+Lemma RI_init : RI [] (fun _ => 0%nat) [] init_state.
+Proof.
+  constructor; cbn [init_state r_atoms r_nbrs r_open map]; try reflexivity.
+  - constructor.
+    + constructor.
+    + reflexivity.
+    + intro y. lia.
+    + intros y p e [].
+    + intros y k e _ H. lia.
+    + intros y [].
+  - constructor; [constructor|]. intros lab v. split; [intros []|]. intros (i & x & k & e & E1 & _). destruct i; discriminate.
+  - constructor; [constructor|]. intro key. split; [intros []|]. intros (x & k & e & _ & _ & H & _). lia.
+Qed.
+
+Theorem rtoks_sim : forall rs log ts logf, rtoks m rs log = Ok (ts, logf) ->
+  forall ord pr st, RI ord pr log st -> r_prev st = None -> r_pend st = None -> r_stack st = [] ->
+  (forall r, In r rs -> par r = None /\ ~ In r ord) -> NoDup rs ->
+  (forall w, In w ord -> pr w = length (row m w)) ->
+  exists st' ord' pr', steps st ts = Some st' /\ RI ord' pr' logf st' /\ r_pend st' = None /\ r_stack st' = [] /\
+    (forall w, In w ord' -> pr' w = length (row m w)) /\ (forall r, In r rs -> In r ord') /\ (forall w, In w ord -> In w ord').
+Proof.
+  induction rs as [|r rest IH]; intros log ts logf E ord pr st HRI Hprev Hpend Hstk Hrs Hnd' Hfull.
+  - cbn in E. inversion E; subst. exists st, ord, pr. split; [reflexivity|]. split; [exact HRI|]. split; [exact Hpend|]. split; [exact Hstk|].
+    split; [exact Hfull|]. split; [intros r []|auto].
+  - cbn [rtoks] in E.
+    destruct (atoks (S (length (atoms m))) m r log) as [[ts1 log2]|] eqn:Ea; cbn [bind] in E; [|discriminate].
+    destruct (rtoks m rest log2) as [[ts2 log3]|] eqn:Er; cbn [bind] in E; [|discriminate].
+    inversion E; subst; clear E.
+    destruct (Hrs r (or_introl eq_refl)) as [Hpr Hr].
+    destruct (atoks_sim _ r log ts1 log2 Ea ord pr st HRI Hr) as (st1 & Es1 & new & pr1 & HR1 & S1 & Q1 & F1 & C1 & P1).
+    { rewrite Hpr. auto. }
+    rewrite Hpr in F1. inversion Hnd' as [|? ? Hrr Hnd'']; subst.
+    assert (Hfull1 : forall w, In w (ord ++ r :: new) -> pr1 w = length (row m w)).
+    { intros w Hw. apply in_app_iff in Hw as [Hw|Hw]; [rewrite (F1 w Hw); now apply Hfull|now apply C1]. }
+    destruct rest as [|r2 rest2].
+    + cbn in Er. inversion Er; subst. exists st1, (ord ++ r :: new), pr1. split; [exact Es1|]. split; [exact HR1|]. split; [exact Q1|].
+      split; [rewrite S1; exact Hstk|]. split; [exact Hfull1|]. split.
+      * intros r0 [<-|[]]. apply in_app_iff. right. now left.
+      * intros w Hw. apply in_app_iff. now left.
+    + rewrite steps_app, Es1. cbn [steps step]. rewrite Q1, S1, Hstk.
+      set (st2 := {| r_atoms := r_atoms st1; r_nbrs := r_nbrs st1; r_prev := None; r_stack := []; r_pend := None; r_open := r_open st1 |}).
+      assert (HR2 : RI (ord ++ r :: new) pr1 log2 st2) by (destruct HR1; constructor; assumption).
+      destruct (IH log2 ts2 logf Er (ord ++ r :: new) pr1 st2 HR2 eq_refl eq_refl eq_refl) as (st' & ord' & pr' & Es' & HR' & Q' & S' & Fu' & Rt' & In').
+      * intros r' Hr'. destruct (Hrs r' (or_intror Hr')) as [Hp' Hn']. split; [exact Hp'|].
+        intro Hin. apply in_app_iff in Hin as [Hin|[<-|Hin]]; [contradiction|contradiction|].
+        rewrite Forall_forall in P1. exact (P1 r' Hin Hp').
+      * exact Hnd''.
+      * exact Hfull1.
+      * exists st', ord', pr'. split; [exact Es'|]. split; [exact HR'|]. split; [exact Q'|]. split; [exact S'|]. split; [exact Fu'|]. split.
+        -- intros r0 [<-|Hr0]; [apply In'; apply in_app_iff; right; now left|now apply Rt'].
+        -- intros w Hw. apply In'. apply in_app_iff. now left.
+Qed.
+
+(* every atom is eventually written: roots by the loop above, the others through their parents *)
+Lemma all_written ord pr : EM ord pr -> (forall r, In r (roots m) -> In r ord) -> (forall w, In w ord -> pr w = length (row m w)) ->
+  forall j, (j < natoms m)%nat -> In j ord.
+Proof.
+  intros Hem Hroots Hfull j. induction j as [j IHj] using lt_wf_ind. intro Hj.
+  destruct (par j) as [[p e]|] eqn:Ep.
+  - destruct (par_some _ _ _ Ep) as (Hein & Hre & Hd & Hlt).
+    assert (Hp : In p ord) by (apply IHj; [exact Hlt|lia]).
+    destruct (In_nth_error _ _ Hein) as [k Ek].
+    rewrite <- Hd. apply (em_child _ _ Hem p k e Ek); [|exact Hre]. rewrite (Hfull p Hp). apply nth_error_Some. congruence.
+  - apply Hroots. now apply par_none_root.
+Qed.
+
+(* ---------- the molecule read at the end ---------- *)
+Definition fps (ord : list nat) (x : nat) : list nslot :=
+  match par x with Some (p, e) => [mkslot (pos ord p) e false] | None => [] end.
+Definition frow (ord : list nat) (x : nat) : list nslot :=
+  fps ord x ++ map (fun e => mkslot (pos ord (b_dst e)) e (b_ring e)) (row m x).
+
+Lemma all_some_map {A} (l : list A) : all_some (map Some l) = Some l.
+Proof. induction l as [|a l IH]; cbn; [reflexivity|]. now rewrite IH. Qed.
+
+Lemma all_some_rows_map {A B} (f : A -> list (option B)) (g : A -> list B) (l : list A) :
+  (forall x, In x l -> f x = map Some (g x)) -> all_some_rows (map f l) = Some (map g l).
+Proof.
+  induction l as [|a l IH]; intro H; cbn; [reflexivity|]. rewrite (H a (or_introl eq_refl)), all_some_map, IH; [reflexivity|].
+  intros x Hx. apply H. now right.
+Qed.
+
+Theorem read_graph ts logf : rtoks m (roots m) [] = Ok (ts, logf) ->
+  exists st' ord, steps init_state ts = Some st' /\ r_pend st' = None /\ r_stack st' = [] /\ r_open st' = [] /\
+    r_atoms st' = map aat ord /\ all_some_rows (r_nbrs st') = Some (map (frow ord) ord) /\
+    NoDup ord /\ (forall j, In j ord <-> (j < natoms m)%nat) /\ (length logf <= length logf)%nat /\
+    (forall key, In key logf -> exists x e, In e (row m x) /\ b_ring e = true /\ key = key_of x (b_dst e)) /\ NoDup logf.
+Proof.
+  intro E.
+  destruct (rtoks_sim (roots m) [] ts logf E [] (fun _ => 0%nat) init_state RI_init eq_refl eq_refl eq_refl)
+    as (st' & ord & pr & Es & HR & Q & S & Full & Rts & _).
+  { intros r Hr. split; [now apply root_par_none|intros []]. }
+  { exact (t_nodup _ HT). }
+  { intros w []. }
+  pose proof (ri_em _ _ _ _ HR) as Hem.
+  assert (Hall : forall j, (j < natoms m)%nat -> In j ord) by (apply (all_written ord pr Hem Rts Full)).
+  assert (Hin : forall j, In j ord -> (j < natoms m)%nat) by exact (em_lt _ _ Hem).
+  exists st', ord. split; [exact Es|]. split; [exact Q|]. split; [exact S|].
+  split.
+  - (* no label is left open *)
+    destruct (r_open st') as [|[lab v] tl] eqn:Eo; [reflexivity|]. exfalso.
+    assert (Hv : In (lab, v) (r_open st')) by (rewrite Eo; now left).
+    apply (ot_in _ _ _ _ (ri_ot _ _ _ _ HR)) in Hv as (i & x & k & e & _ & _ & E3 & E4 & E5 & E6 & _).
+    destruct (partner x k e E3 E4) as (e' & Ee' & _). unfold closedb in E6. apply Nat.ltb_ge in E6.
+    assert (Hy : (b_dst e < natoms m)%nat) by (apply (Hb x e); eapply nth_error_In; exact E3).
+    rewrite (Full _ (Hall _ Hy)) in E6. assert (index_dst (row m (b_dst e)) x < length (row m (b_dst e)))%nat by (apply nth_error_Some; congruence). lia.
+  - split; [exact (ri_atoms _ _ _ _ HR)|]. split.
+    + rewrite (ri_rows _ _ _ _ HR). apply all_some_rows_map. intros x Hx. unfold rowspec, frow, pslot, fps.
+      rewrite map_app. f_equal; [destruct (par x) as [[p e]|]; reflexivity|].
+      rewrite (Full x Hx), firstn_all, map_map. apply map_ext_in. intros e He. unfold ent.
+      destruct (b_ring e) eqn:Er; [|reflexivity].
+      destruct (In_nth_error _ _ He) as [k Ek]. destruct (partner x k e Ek Er) as (e' & Ee' & _).
+      assert (Hy : (b_dst e < natoms m)%nat) by (apply (Hb x e He)).
+      unfold closedb. rewrite (Full _ (Hall _ Hy)).
+      assert (X : (index_dst (row m (b_dst e)) x <? length (row m (b_dst e)))%nat = true) by (apply Nat.ltb_lt, nth_error_Some; congruence).
+      now rewrite X.
+    + split; [exact (em_nodup _ _ Hem)|]. split; [intro j; split; [apply Hin|apply Hall]|]. split; [lia|]. split.
+      * intros key Hk. apply (lg_in _ _ (ri_lg _ _ _ _ HR)) in Hk as (x & k & e & E1 & E2 & _ & E4). exists x, e. split; [eapply nth_error_In; exact E1|auto].
+      * exact (lg_nodup _ _ (ri_lg _ _ _ _ HR)).
 Qed.
 End Sim.
